@@ -2,7 +2,7 @@
     as the translator renders it (harness/cmd/translator/routing.go). The
     property files state that the facts regenerated from the working tree
     equal these. *)
-From Coq Require Import String List NArith.
+From Coq Require Import String List NArith Bool.
 Import ListNotations.
 Local Open Scope string_scope.
 
@@ -11,6 +11,7 @@ Local Open Scope string_scope.
 Definition src_lpm_compare : string := "ones > best".
 (** equivalent alternative (no two buckets of equal length match one address) *)
 Definition src_lpm_compare_ge : string := "ones >= best".
+Definition lpm_compare_ok (s : string) : bool := String.eqb s src_lpm_compare || String.eqb s src_lpm_compare_ge.
 Definition src_lpm_initial_best : string := "-1".
 (** sortRoutes: ascending metric *)
 Definition src_sort_less : string := "[i].Metric < [j].Metric".
